@@ -359,7 +359,11 @@ impl Model for M {
                 // such as the last-commit stamps) must not be merged with an explicit abort, or a
                 // defect there is never expanded (seeded change C09: stamps written before the
                 // relationship validation fails)
-                RStatus::Aborted => format!("x{}", t.how),
+                // ... and *what* the aborted transaction had written: an abort that touches hidden
+                // per-entity state (the last-commit stamps) for its write set decides whether a later
+                // commit of another transaction is refused (seeded change C09b: abort erases the
+                // stamps of the entities it wrote)
+                RStatus::Aborted => format!("x{}{:?}", t.how, t.writes),
             };
             s.push_str(&format!("{st}/{}|", if t.status == RStatus::NotBegun { "-" } else { retained }));
         }
